@@ -12,7 +12,7 @@ import (
 func init() {
 	register("C13", &ruleSet{
 		run:    runC13,
-		floors: map[string]int{"O1": 4, "O2": 2, "O3": 1, "O4": 1},
+		floors: map[string]int{"O1": 4, "O2": 2, "O3": 1, "O4": 1, "O5": 3},
 		explain: "Decides the existence and ordering of the give-up mechanisms (instants are not applicable to a static argument): (O1) every blocking select in " +
 			"the limiter package has a wake-up/hand-off case, a ctx.Done() case (unconditional in the cond-var wait, conditional only on the configured eviction flag " +
 			"in the queue limiter) and a timer case armed from the configured bound whenever that bound is positive (a select without a timer is reachable only when " +
@@ -90,6 +90,64 @@ func runC13(p *Prog, l *Ledger) {
 	l.Rule("O4", "no wait outside the give-up mechanisms: the wait primitive hands the condition's lock it is entered with to a waiter on every way out (the C10/O1 lock-handed-over rule on the same tree); a lock left held parks every later Acquire in Lock(), where neither timeout nor cancellation applies")
 	l.NotCovered = []string{"that the return happens at the bound and not before (exact instants / virtual clock)", "the blocking limiter's timeout is a poll interval, not a give-up bound (by design)"}
 	importObligations(p, l, "C10", "O4", func(o *Obligation) bool { return o.Rule == "O1" && strings.HasSuffix(o.Key, "/lock-handed-over") })
+
+	// ---------------- O5: completions do not run under the condition's lock
+	l.Rule("O5", "the condition's lock, which every arriving and retrying Acquire takes before it can reach its select, is not held while a completion is delivered to the delegate's listener (a callback of unbounded duration: it runs the limit algorithm and its change listeners)")
+	{
+		locks := p.Locksets()
+		lisNamed := p.coreNamed("Listener")
+		n5 := 0
+		for _, nt := range p.Implementers(p.coreIface("Listener")) {
+			if !strings.HasPrefix(p.TypeKey(nt), "limiter.") || len(fieldsOfType(nt, lisNamed)) != 1 || !hasCondField(nt) {
+				continue
+			}
+			df := fieldsOfType(nt, lisNamed)[0]
+			for _, mname := range c02Outcomes {
+				m := p.Method(nt, mname)
+				if m == nil {
+					continue
+				}
+				var bad []string
+				found := 0
+				// the delegate's completion, in the method or in what it calls directly
+				var scan func(f *ssa.Function, depth int)
+				scan = func(f *ssa.Function, depth int) {
+					allInstrs(f, func(ins ssa.Instruction) {
+						call, ok := ins.(*ssa.Call)
+						if !ok {
+							return
+						}
+						c := p.CallOf(call)
+						for _, o := range c02Outcomes {
+							if p.isCoreInvoke(c, "Listener", o) {
+								if fr, _, ok := loadedField(strip(c.Recv, false)); ok && sameField(fr, df) {
+									found++
+									for k, ex := range locks.Held(ins) {
+										if strings.HasSuffix(k, ".L") {
+											bad = append(bad, fmt.Sprintf("%s: delegate.%s runs with %s held (exclusive=%v): an Acquire that arrives or retries meanwhile waits in Lock(), where neither its timeout nor its cancellation applies", p.At(ins), o, k, ex))
+										}
+									}
+								}
+							}
+						}
+						if depth < 2 && c.Static != nil && p.InModule(c.Static) && c.Static.Blocks != nil && c.Recv != nil && AccessPath(c.Recv).Root == ssa.Value(f.Params[0]) && len(f.Params) > 0 {
+							scan(c.Static, depth+1)
+						}
+					})
+				}
+				scan(m, 0)
+				n5++
+				if found == 0 {
+					l.Unknown("O5", p.Key(m), p.FuncPos(m), "the delivery of the completion to the delegate's listener was not found in "+p.Key(m))
+					continue
+				}
+				l.Check(len(bad) == 0, "O5", p.Key(m), p.FuncPos(m), fmt.Sprintf("delegate.%s is invoked without the condition's lock", mname), "a blocked Acquire can outlast its bound", bad...)
+			}
+		}
+		if n5 == 0 {
+			l.Infra("no wrapping listener with a condition variable found in package limiter")
+		}
+	}
 
 	// ---------------- O1: selects
 	var sels []*c13Select
@@ -763,4 +821,22 @@ func c13FreshBound(p *Prog, f *ssa.Function, wait *ssa.Call, arg ssa.Value) stri
 		}
 	}
 	return ""
+}
+
+// hasCondField: the struct has a *sync.Cond (or sync.Cond) field.
+func hasCondField(nt *types.Named) bool {
+	st, ok := nt.Underlying().(*types.Struct)
+	if !ok {
+		return false
+	}
+	for i := 0; i < st.NumFields(); i++ {
+		t := st.Field(i).Type()
+		if pt, ok := t.(*types.Pointer); ok {
+			t = pt.Elem()
+		}
+		if n, ok := t.(*types.Named); ok && n.Obj().Pkg() != nil && n.Obj().Pkg().Path() == "sync" && n.Obj().Name() == "Cond" {
+			return true
+		}
+	}
+	return false
 }
